@@ -184,7 +184,7 @@ void tbl_exec(const hist_t* h, FILE* f, const char* path, int stop_after, tbl_re
     }
     if (alive) {
         if (stop_after >= 0 && r->nops == stop_after) { carquet_writer_abort(e.w); r->aborted = true; }
-        else { carquet_status_t st = carquet_writer_close(e.w); r->nops++; if (st != CARQUET_OK && r->status == CARQUET_OK) { r->status = st; r->where = "close"; r->failed_op = r->nops - 1; } }
+        else { carquet_status_t st = carquet_writer_close(e.w); r->nops++; r->closed = true; r->close_status = st; if (st != CARQUET_OK && r->status == CARQUET_OK) { r->status = st; r->where = "close"; r->failed_op = r->nops - 1; } }
     }
     carquet_schema_free(s);
 }
